@@ -39,6 +39,12 @@ def consts_compared(b, ops=("Eq", "Ne")):
                 c = F.const_int(o)
                 if c is not None:
                     s.add(c)
+    # the match / matches! spelling of the same tests: a switch on the byte itself
+    for bb in b["blocks"]:
+        t = bb["term"]
+        if t["k"] == "switch" and t.get("discr_ty") in ("u8", "char"):
+            for v, tg in t["arms"]:
+                s.add(v)
     return s
 
 
